@@ -4,9 +4,10 @@ import json, os, random, re
 
 def sequences(seed, n):
     rng = random.Random(seed)
-    kinds = ["A", "B", "C", "D", "E", "F", "G", "H", "unparsable", "unknownkey", "badset", "missing"]
+    kinds = ["A", "B", "C", "D", "E", "F", "G", "H", "unparsable", "unknownkey", "badset", "missing", "rekeyed-baddefault", "rekeyed-stray"]
     seqs = [["A", "B", "unparsable", "C", "D", "A"], ["A", "D", "B", "missing", "B", "badset", "C"], ["B", "unknownkey", "A", "A", "C"],
-            ["A", "E", "C", "E", "B", "F", "G", "A"], ["C", "E", "G", "B", "F", "C"], ["A", "H", "C", "H", "B", "H", "A"], ["C", "H", "unparsable", "A"]]
+            ["A", "E", "C", "E", "B", "F", "G", "A"], ["C", "E", "G", "B", "F", "C"], ["A", "H", "C", "H", "B", "H", "A"], ["C", "H", "unparsable", "A"],
+            ["C", "rekeyed-baddefault", "rekeyed-stray", "A", "rekeyed-stray", "B", "rekeyed-baddefault", "C"]]
     while len(seqs) < n:
         seqs.append([rng.choice(["A", "B", "C"])] + [rng.choice(kinds) for _ in range(rng.randint(3, 7))])
     return seqs[:n]
@@ -14,7 +15,7 @@ def sequences(seed, n):
 
 def run(ctx, prop="C18"):
     thorough = ctx.tier == "thorough"
-    seqs = sequences(ctx.seed, 10 if not thorough else 40)
+    seqs = sequences(ctx.seed, 11 if not thorough else 40)
     lines = []
     for i, seq in enumerate(seqs):
         inp = os.path.join(ctx.scratch, "reload-%d.json" % i)
